@@ -1,6 +1,6 @@
 """C19 — Times survive persistence and compare consistently (structural clauses)."""
 from ..core import BV, strip, walk, fmt_t
-from .. import lib, guards, intervals, census
+from .. import lib, guards, intervals, census, terms
 
 CT = "time::ComplexTime"
 PCT = "time::PartialComplexTime"
@@ -268,6 +268,12 @@ def run(F, R):
     # ---------------------------------------------------------------- R4/R5 truncation helper
     R.rule("C19-R4", "each branch of the truncation helper can adjust by zero (otherwise it has no fixed point and is not idempotent)")
     R.rule("C19-R5", "the truncation helper moves the wall time toward the epoch on both sides of it (as the storage encoding does); the storage encoding truncates without adjustment")
+    # the helper the truncation branches on: Err exactly when the wall time is before the argument (std's own answer, unaltered)
+    wd = lib.one(R, "C19-R5", c, "ComplexTime::wall_duration_since", item="wall_duration_since", impl_self=CT)
+    if wd:
+        rw = terms.render(wd, wd.trace_local(0), None, {1: "self", 2: "earlier"})
+        R.check("C19-R5", "wall_duration_since-delegates", rw in ("duration_since(self.wall, into(earlier))", "duration_since(self.wall, earlier)"), rw,
+                "wall_duration_since is %s, not SystemTime::duration_since(self.wall, earlier): the pre-/post-epoch split of the truncation helper depends on its Err" % rw[:160])
     tr = lib.one(R, "C19-R4", c, "ComplexTime::truncate_submicrosecond_walltime", item="truncate_submicrosecond_walltime", impl_self=CT)
     if tr:
         R.count("bodies")
